@@ -23,13 +23,13 @@ theorem run_wf (c : Cfg) (ops : List Op) : AList.NoDupKeys (run c ops).buf := ru
 /-- **eject_prefix** — the traces an ejection decides, in the order it decides them, are a prefix of
 an impact-descending order of the whole buffer (heaviest estimated impact first; ties open). -/
 theorem eject_prefix (s : St) (hwf : AList.NoDupKeys s.buf) (bytes : Nat) (imp : AList Nat Nat)
-    (order : List Nat) (l : List Sent) (left : List Nat)
-    (h : (step s (.eject bytes imp order)).2 = .sent l left) :
+    (order : List Nat) (ages : AList Nat (List (Nat × Nat × Nat))) (l : List Sent) (left : List Nat)
+    (h : (step s (.eject bytes imp order ages)).2 = .sent l left) :
     l.map (·.1) = order ∧
     ∃ full : List Nat, full.Perm (AList.keys s.buf) ∧
       full.Pairwise (fun a b => impOf imp b ≤ impOf imp a) ∧
       order = full.take order.length := by
-  obtain ⟨⟨hnd, hsub, _, hpw, hrest, _, _⟩, hl, _, _⟩ := eject_accepted h
+  obtain ⟨⟨hnd, hsub, _, hpw, hrest, _, _, _⟩, hl, _, _⟩ := eject_accepted h
   refine ⟨by rw [hl]; exact sentOf_ids _ order hsub, ?_⟩
   let key : Nat → Int := fun id => -((impOf imp id : Nat) : Int)
   let rest := (AList.keys s.buf).filter (fun x => decide (x ∉ order))
@@ -71,18 +71,18 @@ the released size was still `≤ bytes`, and at the end either it exceeds `bytes
 in the buffer.  (In particular a non-empty buffer always loses at least one trace, even for a
 share of 0.) -/
 theorem eject_stop_rule (s : St) (hwf : AList.NoDupKeys s.buf) (bytes : Nat) (imp : AList Nat Nat)
-    (order : List Nat) (l : List Sent) (left : List Nat)
-    (h : (step s (.eject bytes imp order)).2 = .sent l left) :
+    (order : List Nat) (ages : AList Nat (List (Nat × Nat × Nat))) (l : List Sent) (left : List Nat)
+    (h : (step s (.eject bytes imp order ages)).2 = .sent l left) :
     (∀ k, k < order.length → sizeSum s (order.take k) ≤ bytes) ∧
-    (bytes < sizeSum s order ∨ (step s (.eject bytes imp order)).1.buf = []) ∧
+    (bytes < sizeSum s order ∨ (step s (.eject bytes imp order ages)).1.buf = []) ∧
     (s.buf ≠ [] → order ≠ []) := by
-  obtain ⟨⟨hnd, hsub, _, _, _, hstop, hend⟩, _, hs', _⟩ := eject_accepted h
+  obtain ⟨⟨hnd, hsub, _, _, _, hstop, hend, _⟩, _, hs', _⟩ := eject_accepted h
   refine ⟨fun k hk => hstop k (List.mem_range.mpr hk), ?_, ?_⟩
   · rcases hend with hgt | hlen
     · exact Or.inl hgt
     · right
       rw [hs']
-      simp only [removeIds]
+      simp only [setMemo, removeIds]
       have hall : ∀ a ∈ AList.keys s.buf, a ∈ order :=
         subset_of_nodup_length hwf hnd hsub (by simpa [AList.keys] using hlen)
       apply List.filter_eq_nil_iff.mpr
@@ -100,9 +100,9 @@ theorem eject_stop_rule (s : St) (hwf : AList.NoDupKeys s.buf) (bytes : Nat) (im
 and with all the spans it held, has left the buffer, has a recorded decision, and a later span for
 it is treated as a late span (it is not re-buffered). -/
 theorem eject_decides (s : St) (bytes : Nat) (imp : AList Nat Nat)
-    (order : List Nat) (l : List Sent) (left : List Nat)
-    (h : (step s (.eject bytes imp order)).2 = .sent l left) :
-    let s' := (step s (.eject bytes imp order)).1
+    (order : List Nat) (ages : AList Nat (List (Nat × Nat × Nat))) (l : List Sent) (left : List Nat)
+    (h : (step s (.eject bytes imp order ages)).2 = .sent l left) :
+    let s' := (step s (.eject bytes imp order ages)).1
     ∀ x ∈ l, ∃ tr, AList.get s.buf x.1 = some tr ∧ x = (x.1, Reason.ejectedMemsize, tr.count) ∧
       AList.get s'.buf x.1 = none ∧ x.1 ∈ s'.decided ∧
       ∀ root size, (step s' (.span x.1 root size)).2 = .late := by
@@ -111,11 +111,11 @@ theorem eject_decides (s : St) (bytes : Nat) (imp : AList Nat Nat)
   rw [hl] at hx
   obtain ⟨hin, tr, hg, hxe⟩ := mem_sentOf hx
   have hnone : AList.get s'.buf x.1 = none := by
-    simp only [s', hs', removeIds]
+    simp only [s', hs', setMemo, removeIds]
     rw [get_filter_key s.buf (fun k => decide (k ∉ order)) x.1]
     simp [hin]
   have hdec : x.1 ∈ s'.decided := by
-    simp only [s', hs', removeIds, List.mem_append]
+    simp only [s', hs', setMemo, removeIds, List.mem_append]
     exact Or.inl hin
   refine ⟨tr, hg, hxe, hnone, hdec, ?_⟩
   intro root size
@@ -124,8 +124,8 @@ theorem eject_decides (s : St) (bytes : Nat) (imp : AList Nat Nat)
 /-- after any history, the span count reported for an ejected trace is the number of spans that
 arrived for it: no accepted span of an ejected trace is lost -/
 theorem eject_decides_all_spans (c : Cfg) (ops : List Op) (bytes : Nat) (imp : AList Nat Nat)
-    (order : List Nat) (l : List Sent) (left : List Nat)
-    (h : (step (run c ops) (.eject bytes imp order)).2 = .sent l left) :
+    (order : List Nat) (ages : AList Nat (List (Nat × Nat × Nat))) (l : List Sent) (left : List Nat)
+    (h : (step (run c ops) (.eject bytes imp order ages)).2 = .sent l left) :
     ∀ x ∈ l, ∃ a, (Spec.run c ops).arr x.1 = some a ∧ x.2.2 = a.count := by
   obtain ⟨_, hl, _, _⟩ := eject_accepted h
   intro x hx
@@ -139,9 +139,9 @@ theorem eject_decides_all_spans (c : Cfg) (ops : List Op) (bytes : Nat) (imp : A
 plus the buffer after it; the traces that stay are untouched; the reported remaining ids are the
 buffer's ids. -/
 theorem eject_conserves (s : St) (hwf : AList.NoDupKeys s.buf) (bytes : Nat) (imp : AList Nat Nat)
-    (order : List Nat) (l : List Sent) (left : List Nat)
-    (h : (step s (.eject bytes imp order)).2 = .sent l left) :
-    let s' := (step s (.eject bytes imp order)).1
+    (order : List Nat) (ages : AList Nat (List (Nat × Nat × Nat))) (l : List Sent) (left : List Nat)
+    (h : (step s (.eject bytes imp order ages)).2 = .sent l left) :
+    let s' := (step s (.eject bytes imp order ages)).1
     (order ++ AList.keys s'.buf).Perm (AList.keys s.buf) ∧
     (∀ id, id ∉ order → AList.get s'.buf id = AList.get s.buf id) ∧
     s'.decided = order ++ s.decided ∧
@@ -149,7 +149,7 @@ theorem eject_conserves (s : St) (hwf : AList.NoDupKeys s.buf) (bytes : Nat) (im
   obtain ⟨⟨hnd, hsub, _⟩, _, hs', hleft⟩ := eject_accepted h
   intro s'
   have hkeys : AList.keys s'.buf = (AList.keys s.buf).filter (fun k => decide (k ∉ order)) := by
-    simp only [s', hs', removeIds]
+    simp only [s', hs', setMemo, removeIds]
     exact keys_filter_key s.buf (fun k => decide (k ∉ order))
   refine ⟨?_, ?_, ?_, ?_⟩
   · rw [hkeys]
@@ -172,11 +172,11 @@ theorem eject_conserves (s : St) (hwf : AList.NoDupKeys s.buf) (bytes : Nat) (im
       · exact Or.inl hin
       · exact Or.inr ⟨ha, hin⟩
   · intro id hid
-    simp only [s', hs', removeIds]
+    simp only [s', hs', setMemo, removeIds]
     rw [get_filter_key s.buf (fun k => decide (k ∉ order)) id]
     simp [hid]
-  · simp only [s', hs', removeIds]
-  · rw [hleft]; simp only [s', hs', leftIds]
+  · simp only [s', hs', setMemo, removeIds]
+  · rw [hleft]; simp only [s', hs', setMemo, leftIds, removeIds]
 
 /-- **eject_conserves** (all histories) — in every reachable state, every trace for which a span has
 ever arrived is either still buffered or has a recorded decision, never both, and nothing else is
@@ -206,11 +206,13 @@ theorem accepted_is_buffered_or_decided (c : Cfg) (ops : List Op) (id : Nat) :
     | none => simp [hg] at hk
     | some tr => exact (h4 id tr hg).1 hd
 
-/-- **Refinement / non-vacuity**: whenever an impact is known for every buffered trace, the loop of
+/-- **Refinement / non-vacuity**: whenever the impacts are the estimates the code defines, the loop of
 `sendTracesEarly` over the impact-sorted buffer produces an ejection the acceptor admits. -/
 theorem eject_loop_refines_acceptor (s : St) (hwf : AList.NoDupKeys s.buf) (bytes : Nat)
-    (imp : AList Nat Nat) (himp : ∀ id ∈ AList.keys s.buf, (AList.get imp id).isSome) :
-    ValidEject s bytes imp (ejectRef s bytes imp) := by
+    (imp : AList Nat Nat) (ages : AList Nat (List (Nat × Nat × Nat)))
+    (himp : ∀ id ∈ AList.keys s.buf, (AList.get imp id).isSome)
+    (hok : ∀ id ∈ AList.keys s.buf, impactOK s imp ages id = true) :
+    ValidEject s bytes imp (ejectRef s bytes imp) ages := by
   let key : Nat → Int := fun id => -((impOf imp id : Nat) : Int)
   have hkey : ∀ a b, key a ≤ key b ↔ impOf imp b ≤ impOf imp a := by
     intro a b; simp only [key]; omega
@@ -222,7 +224,7 @@ theorem eject_loop_refines_acceptor (s : St) (hwf : AList.NoDupKeys s.buf) (byte
   generalize hL : sortBy key (AList.keys s.buf) = L at *
   have hLnd : L.Nodup := hperm.nodup_iff.mpr hwf
   rw [hdef]
-  refine ⟨hLnd.sublist (List.take_sublist k L), ?_, himp, hsorted.sublist (List.take_sublist k L), ?_, ?_, ?_⟩
+  refine ⟨hLnd.sublist (List.take_sublist k L), ?_, himp, hsorted.sublist (List.take_sublist k L), ?_, ?_, ?_, hok⟩
   · intro id hid
     exact hperm.subset (List.mem_of_mem_take hid)
   · intro x hx hxn y hy
@@ -251,11 +253,127 @@ theorem eject_loop_refines_acceptor (s : St) (hwf : AList.NoDupKeys s.buf) (byte
 /-- In every state some ejection is admissible (the one the reference loop computes), so the
 theorems about accepted ejections are never vacuous. -/
 theorem eject_always_admissible (s : St) (hwf : AList.NoDupKeys s.buf) (bytes : Nat)
-    (imp : AList Nat Nat) (himp : ∀ id ∈ AList.keys s.buf, (AList.get imp id).isSome) :
-    ∃ l left, (step s (.eject bytes imp (ejectRef s bytes imp))).2 = .sent l left := by
-  have hv := eject_loop_refines_acceptor s hwf bytes imp himp
+    (imp : AList Nat Nat) (ages : AList Nat (List (Nat × Nat × Nat)))
+    (himp : ∀ id ∈ AList.keys s.buf, (AList.get imp id).isSome)
+    (hok : ∀ id ∈ AList.keys s.buf, impactOK s imp ages id = true) :
+    ∃ l left, (step s (.eject bytes imp (ejectRef s bytes imp) ages)).2 = .sent l left := by
+  have hv := eject_loop_refines_acceptor s hwf bytes imp ages himp hok
   exact ⟨sentOf s (fun _ => Reason.ejectedMemsize) (ejectRef s bytes imp),
-    leftIds (removeIds s (ejectRef s bytes imp)), by simp only [step, eject, hv, if_true]⟩
+    leftIds (setMemo (removeIds s (ejectRef s bytes imp)) (memoAfter s imp)),
+    by simp only [step, eject, hv, if_true]⟩
+
+/-! ## the estimated impact -/
+
+/-- **impact_formula** — closed form of the estimate as `types/event.go` defines it: a span weighs
+its data size times `(cacheImpactFactor · age / traceTimeout + 1)`, the factor (4, read from the
+code) applied BEFORE the truncating division; a trace weighs the sum over its spans; within one
+trace timeout the multiplier ranges over `1 … cacheImpactFactor + 1`. -/
+theorem impact_formula (tt size since : Nat) (spans : List (Nat × Nat)) :
+    impactFactor = 4 ∧
+    spanImpact tt size since = size * (impactFactor * since / tt) + size ∧
+    traceImpact tt spans = (spans.map fun p => p.1 * (impactFactor * p.2 / tt) + p.1).sum ∧
+    (0 < tt → since ≤ tt → size ≤ spanImpact tt size since ∧
+      spanImpact tt size since ≤ (impactFactor + 1) * size) := by
+  refine ⟨by decide, ?_, ?_, ?_⟩
+  · simp only [spanImpact, Nat.add_mul, Nat.one_mul]; rw [Nat.mul_comm]
+  · simp only [traceImpact, spanImpact, Nat.add_mul, Nat.one_mul]
+    congr 1
+    apply List.map_congr_left
+    intro p _
+    rw [Nat.mul_comm]
+  · intro htt hle
+    have h1 : impactFactor * since / tt ≤ impactFactor := by
+      apply Nat.div_le_of_le_mul
+      rw [Nat.mul_comm tt]
+      exact Nat.mul_le_mul_left _ hle
+    constructor
+    · simp only [spanImpact]
+      exact Nat.le_mul_of_pos_left _ (Nat.succ_pos _)
+    · simp only [spanImpact]
+      exact Nat.mul_le_mul_right _ (Nat.add_le_add_right h1 1)
+
+/-- **impact_monotone_in_age** — with the same data size an older span never weighs less; hence a
+trace whose spans are all at least as old weighs at least as much. -/
+theorem impact_monotone_in_age (tt size since since' : Nat) (h : since ≤ since') :
+    spanImpact tt size since ≤ spanImpact tt size since' := by
+  simp only [spanImpact]
+  exact Nat.mul_le_mul_right _ (Nat.add_le_add_right
+    (Nat.div_le_div_right (Nat.mul_le_mul_left _ h)) 1)
+
+theorem trace_impact_monotone_in_age (tt : Nat) (sp : List (Nat × Nat × Nat))
+    (h : ∀ e ∈ sp, e.2.1 ≤ e.2.2) : traceImpact tt (lows sp) ≤ traceImpact tt (highs sp) := by
+  induction sp with
+  | nil => simp [traceImpact, lows, highs]
+  | cons e t ih =>
+    have he := h e List.mem_cons_self
+    have iht := ih (fun x hx => h x (List.mem_cons_of_mem _ hx))
+    simp only [traceImpact, lows, highs, List.map_cons, List.sum_cons] at iht ⊢
+    exact Nat.add_le_add (impact_monotone_in_age tt e.1 _ _ he) iht
+
+/-- the modelled estimate of a buffered trace at the instant of the ejection (span ages known) -/
+def modelImpact (s : St) (ages : AList Nat (List (Nat × Nat × Nat))) (id : Nat) : Nat :=
+  match AList.get ages id with
+  | some sp => traceImpact s.cfg.impactTimeout (lows sp)
+  | none => 0
+
+/-- An accepted impact is the modelled estimate: for a trace without memoised value in a buffer of
+at least two, the impact the code used lies between the estimates for the lower and upper bounds
+of its span ages, and equals the modelled estimate when the ages are known exactly. -/
+theorem impact_is_modelled (s : St) (imp : AList Nat Nat) (ages : AList Nat (List (Nat × Nat × Nat)))
+    (id : Nat) (hok : impactOK s imp ages id = true) (hm : impOf s.memo id = 0)
+    (h2 : 2 ≤ s.buf.length) :
+    ∃ sp tr, AList.get ages id = some sp ∧ AList.get s.buf id = some tr ∧
+      sp.length = tr.count ∧ (sp.map (·.1)).sum = tr.size ∧
+      traceImpact s.cfg.impactTimeout (lows sp) ≤ impOf imp id ∧
+      impOf imp id ≤ traceImpact s.cfg.impactTimeout (highs sp) ∧
+      ((∀ e ∈ sp, e.2.1 = e.2.2) → impOf imp id = modelImpact s ages id) := by
+  unfold impactOK at hok
+  have hc : ¬ (impOf s.memo id ≠ 0 ∨ s.buf.length < 2) := by omega
+  simp only [hc, if_false] at hok
+  cases hsp : AList.get ages id with
+  | none => simp [hsp] at hok
+  | some sp =>
+    cases htr : AList.get s.buf id with
+    | none => simp [hsp, htr] at hok
+    | some tr =>
+      simp only [hsp, htr, decide_eq_true_eq] at hok
+      obtain ⟨h1, h2', _, h4, h5⟩ := hok
+      refine ⟨sp, tr, rfl, rfl, h1, h2', h4, h5, ?_⟩
+      intro hex
+      have hlh : highs sp = lows sp := by
+        simp only [highs, lows]
+        apply List.map_congr_left
+        intro e he
+        rw [hex e he]
+      rw [hlh] at h5
+      simp only [modelImpact, hsp]
+      omega
+
+/-- **eject_prefix over the modelled estimate** — when nothing is memoised, at least two traces are
+buffered and the span ages are known exactly, the traces an ejection decides are a prefix of an
+order of the whole buffer that is descending in the MODELLED age-weighted impact
+`Σ size · (4·age/TraceTimeout + 1)`. -/
+theorem eject_prefix_modelled (s : St) (hwf : AList.NoDupKeys s.buf) (bytes : Nat) (imp : AList Nat Nat)
+    (order : List Nat) (ages : AList Nat (List (Nat × Nat × Nat))) (l : List Sent) (left : List Nat)
+    (h : (step s (.eject bytes imp order ages)).2 = .sent l left)
+    (hm : ∀ id ∈ AList.keys s.buf, impOf s.memo id = 0) (h2 : 2 ≤ s.buf.length)
+    (hex : ∀ id sp, AList.get ages id = some sp → ∀ e ∈ sp, e.2.1 = e.2.2) :
+    l.map (·.1) = order ∧
+    ∃ full : List Nat, full.Perm (AList.keys s.buf) ∧
+      full.Pairwise (fun a b => modelImpact s ages b ≤ modelImpact s ages a) ∧
+      order = full.take order.length := by
+  obtain ⟨hv, _, _, _⟩ := eject_accepted h
+  have hok := hv.2.2.2.2.2.2.2
+  have heq : ∀ id ∈ AList.keys s.buf, impOf imp id = modelImpact s ages id := by
+    intro id hid
+    obtain ⟨sp, _, hsp, _, _, _, _, _, hexact⟩ := impact_is_modelled s imp ages id (hok id hid) (hm id hid) h2
+    exact hexact (hex id sp hsp)
+  obtain ⟨hl, full, hperm, hpw, htake⟩ := eject_prefix s hwf bytes imp order ages l left h
+  refine ⟨hl, full, hperm, ?_, htake⟩
+  refine hpw.imp_of_mem ?_
+  intro a b ha hb hab
+  rw [← heq a (hperm.subset ha), ← heq b (hperm.subset hb)]
+  exact hab
 
 /-- **share_formula** — `checkAlloc` asks no worker to eject exactly when the limit is unset or the heap
 reading is below it; otherwise every worker gets the same share `⌊(heap − MaxAlloc) / workers⌋`,
@@ -284,21 +402,37 @@ def cfg0 : Cfg := { traceTimeout := 0, sendDelay := 0, spanLimit := 0, maxExpire
 /-- three buffered traces of sizes 10, 100, 100 -/
 def buf3 : St := run cfg0 [.span 1 false 10, .span 2 false 100, .span 3 false 60, .span 3 false 40]
 def imps : AList Nat Nat := [(1, 10), (2, 100), (3, 500)]
+/-- spans as (size, age lower bound, age upper bound): traces 1 and 2 are fresh, trace 3 is one trace
+timeout (60 s) old, so its 100 bytes weigh 5 × 100 -/
+def ages3 : AList Nat (List (Nat × Nat × Nat)) :=
+  [(1, [(10, 0, 0)]), (2, [(100, 0, 0)]), (3, [(60, 60000000000, 60000000000), (40, 60000000000, 60000000000)])]
 
 -- share 0: exactly the heaviest trace goes, with the memory reason and both its spans
-example : (step buf3 (.eject 0 imps [3])).2 = .sent [(3, .ejectedMemsize, 2)] [1, 2] := by decide
+example : (step buf3 (.eject 0 imps [3] ages3)).2 = .sent [(3, .ejectedMemsize, 2)] [1, 2] := by decide
 -- share 100: after trace 3 (100 bytes) the released size does not yet exceed 100, so trace 2 goes too
-example : (step buf3 (.eject 100 imps [3])).2 = .reject := by decide
-example : (step buf3 (.eject 100 imps [3, 2])).2
+example : (step buf3 (.eject 100 imps [3] ages3)).2 = .reject := by decide
+example : (step buf3 (.eject 100 imps [3, 2] ages3)).2
     = .sent [(3, .ejectedMemsize, 2), (2, .ejectedMemsize, 1)] [1] := by decide
 -- not heaviest first / one too many / more than the whole buffer
-example : (step buf3 (.eject 0 imps [2])).2 = .reject := by decide
-example : (step buf3 (.eject 0 imps [3, 2])).2 = .reject := by decide
-example : (step buf3 (.eject 100000 imps [3, 2, 1])).2
+example : (step buf3 (.eject 0 imps [2] ages3)).2 = .reject := by decide
+example : (step buf3 (.eject 0 imps [3, 2] ages3)).2 = .reject := by decide
+example : (step buf3 (.eject 100000 imps [3, 2, 1] ages3)).2
     = .sent [(3, .ejectedMemsize, 2), (2, .ejectedMemsize, 1), (1, .ejectedMemsize, 1)] [] := by decide
-example : (step buf3 (.eject 100000 imps [3, 2])).2 = .reject := by decide
+example : (step buf3 (.eject 100000 imps [3, 2] ages3)).2 = .reject := by decide
 -- an ejected trace is not re-buffered
-example : (step (step buf3 (.eject 0 imps [3])).1 (.span 3 true 5)).2 = .late := by decide
+example : (step (step buf3 (.eject 0 imps [3] ages3)).1 (.span 3 true 5)).2 = .late := by decide
+-- truncation order: half a trace timeout old => multiplier 3 (4·½ + 1), not 1
+example : spanImpact 60000000000 100 30000000000 = 300 ∧ spanImpact 60000000000 100 0 = 100 ∧
+    spanImpact 60000000000 100 14999999999 = 100 ∧ spanImpact 60000000000 100 15000000000 = 200 := by decide
+-- age flips the order: an older small trace (100 bytes, half a timeout: 300) goes before a fresh larger one (200)
+def bufFlip : St := run cfg0 [.span 1 false 100, .span 2 false 200]
+def agesFlip : AList Nat (List (Nat × Nat × Nat)) := [(1, [(100, 30000000000, 30000000000)]), (2, [(200, 0, 0)])]
+example : (step bufFlip (.eject 0 [(1, 300), (2, 200)] [1] agesFlip)).2 = .sent [(1, .ejectedMemsize, 1)] [2] := by decide
+-- the impacts a size-only estimate would give (multiplier 1 for the old trace) are not accepted
+example : (step bufFlip (.eject 0 [(1, 100), (2, 200)] [2] agesFlip)).2 = .reject := by decide
+-- a memoised impact is reused until the next span arrives
+example : (step (step buf3 (.eject 0 imps [3] ages3)).1 (.eject 0 [(1, 10), (2, 100)] [2] [])).2
+    = .sent [(2, .ejectedMemsize, 1)] [1] := by decide
 example : ejectRef buf3 100 imps = [3, 2] ∧ ejectRef buf3 0 imps = [3] ∧ ejectRef buf3 100000 imps = [3, 2, 1] := by decide
 example : evictionShare 1000 400 3 = some 200 ∧ evictionShare 399 400 3 = none ∧
     evictionShare 400 400 3 = some 0 ∧ evictionShare 1000 0 3 = none := by decide
